@@ -7,7 +7,7 @@ import mmap
 import os
 import subprocess
 
-from .simfs import HarnessError
+from .simfs import REPO, HarnessError
 
 LIBC = ctypes.CDLL(None, use_errno=True)
 PAGE = mmap.PAGESIZE
@@ -132,7 +132,7 @@ class CBuildError(Exception):
 
 def build_runtime(workdir: str) -> str:
     obj = os.path.join(workdir, "bitproto_rt.o")
-    p = subprocess.run(["gcc"] + CFLAGS + ["-c", "/repo/lib/c/bitproto.c", "-I", "/repo/lib/c", "-o", obj], capture_output=True, text=True)
+    p = subprocess.run(["gcc"] + CFLAGS + ["-c", REPO + "/lib/c/bitproto.c", "-I", REPO + "/lib/c", "-o", obj], capture_output=True, text=True)
     if p.returncode != 0:
         raise CBuildError("runtime does not compile: " + p.stderr[-1500:])
     return obj
@@ -143,7 +143,7 @@ def build_version(workdir: str, c_file: str, header: str, rt_obj: str, tag: str,
     with open(shim, "w") as f:
         f.write(gen_shim(header, root))
     so = os.path.join(workdir, "lib_%s.so" % tag)
-    p = subprocess.run(["gcc"] + CFLAGS + ["-shared", "-o", so, c_file, shim, rt_obj, "-I", "/repo/lib/c", "-I", os.path.dirname(header)], capture_output=True, text=True)
+    p = subprocess.run(["gcc"] + CFLAGS + ["-shared", "-o", so, c_file, shim, rt_obj, "-I", REPO + "/lib/c", "-I", os.path.dirname(header)], capture_output=True, text=True)
     if p.returncode != 0:
         raise CBuildError("generated C does not compile: " + p.stderr[-1500:])
     return so
